@@ -3620,9 +3620,10 @@ Hgetntinfo(const int32 numbertype, hdf_ntinfo_t *nt_info)
 int
 hi_close_stdio(FILE **f)
 {
-    if (EOF == fclose(*f))
-        return FAIL;
+    int ret_value = (EOF == fclose(*f)) ? FAIL : SUCCEED;
+
+    /* the stream is gone whether or not fclose reported an error: never close it a second time */
     *f = NULL;
-    return SUCCEED;
+    return ret_value;
 }
 #endif
